@@ -697,7 +697,7 @@ pub fn run(tier: Tier) -> Report {
 
     rep.set_rule(
         "BFS to fixpoint over the reader's exact state (bytes pulled, buffer length, bit offset, grown?, and the ring buffer's physical layout: capacity and first-slice length) for every source; every operation of the alphabet applied in every state, every step compared with a bit-vector model, a drain probe at every new state; \
-         plus every history of 4 (thorough 5) operations over a reduced alphabet without state merging, with a drain probe at the end; plus every pair of primitives with at most one departure from the byte source's default answer (the k-th read reports Interrupted / WouldBlock / another error, or one byte per read); plus a start code at every bit position 0..150 of zero-free noise, searched after look-aheads that left up to 200 bits buffered and skips of 0..8 bits, with and without in_error; plus a one-step sweep of all two-byte sources x offsets x widths x types; plus a long-range sweep (one skip of 2^k + d bits, k = 3..25 (thorough 28), d = -9..9, from bit offsets 0, 3 and 8 of a multi-megabyte source, then reads of several widths in four orders and the exact reader state, or the same inside a transaction that fails and must leave the reader where it started; and skips beyond the end of the source up to u32::MAX); non-trivial transition = transaction/union/look-ahead/grow, or any step ending off a byte boundary",
+         plus every history of 4 (thorough 5) operations over a reduced alphabet without state merging, with a drain probe at the end; plus every pair of primitives with at most one departure from the byte source's default answer (the k-th read reports Interrupted / WouldBlock / another error, or one byte per read); plus a start code at every bit position 0..150 of zero-free noise, searched after look-aheads that left up to 200 bits buffered and skips of 0..8 bits, with and without in_error; plus a one-step sweep of all two-byte sources x offsets x widths x types; plus a long-range sweep (one skip of 2^k + d bits, k = 3..25 (thorough 28), d = -9..9, from bit offsets 0, 3 and 8 of a multi-megabyte source, then reads of several widths in four orders and the exact reader state, also on sources that answer with short counts (one byte, irregular chunk sizes), or the same inside a transaction that fails and must leave the reader where it started; and skips beyond the end of the source up to u32::MAX); non-trivial transition = transaction/union/look-ahead/grow, or any step ending off a byte boundary",
     );
     rep.sample(json!({"source": "00 80 a5", "history": ["read_bits::<u32>(1)", "commit", "with_transaction{read 17 bits; fail}", "read_u8"]}));
     rep.sample(json!({"source": "ff 80 00 40 12", "history": ["skip_bits(7)", "recognize_start_code(false) -> Some(2)"]}));
@@ -1030,10 +1030,32 @@ fn long_bits(pos: usize, n: usize) -> u64 {
     })
 }
 
+/// Source that answers every request with at most `pattern[i % len]` bytes (short reads are legal
+/// for `Read`: fewer bytes than asked for does not mean the end).
+struct Chunky<'a> {
+    data: &'a [u8],
+    pos: usize,
+    calls: usize,
+    pattern: &'static [usize],
+}
+impl Read for Chunky<'_> {
+    fn read(&mut self, buf: &mut [u8]) -> std::io::Result<usize> {
+        let lim = self.pattern[self.calls % self.pattern.len()];
+        self.calls += 1;
+        let n = buf.len().min(self.data.len() - self.pos).min(lim);
+        buf[..n].copy_from_slice(&self.data[self.pos..self.pos + n]);
+        self.pos += n;
+        Ok(n)
+    }
+}
+const CHUNK_PATTERNS: [&[usize]; 4] = [&[usize::MAX], &[1], &[4096, 100, 5000, 1, 4095, 70000], &[3, 1 << 20, 7]];
+
 /// One case of the long-range sweep; `Err` describes the first disagreement with the model.
 fn long_case(data: &[u8], pre: u32, n: u32, variant: usize) -> Result<(), String> {
     let total = data.len() * 8;
-    let mut rd = H263Reader::from_source(data);
+    // variants 5.. repeat variant 0 on sources that deliver short counts
+    let (variant, pattern) = if variant >= 5 { (0, CHUNK_PATTERNS[variant - 4]) } else { (variant, CHUNK_PATTERNS[0]) };
+    let mut rd = H263Reader::from_source(Chunky { data, pos: 0, calls: 0, pattern });
     catch(|| -> Result<(), String> {
         rd.skip_bits(pre).map_err(|e| format!("skip_bits({pre}) failed: {e:?}"))?;
         let target = pre as usize + n as usize;
@@ -1104,8 +1126,12 @@ fn long_range_sweep(rep: &Report, tier: Tier) {
     for k in 3..=kmax {
         for d in -9i64..=9 {
             for pre in [0u32, 3, 8] {
-                for v in 0..5 {
+                for v in 0..8 {
                     if v == 4 && (d.abs() > 1 || k < 13) {
+                        continue;
+                    }
+                    // short-count sources: the one-byte source only for moderate lengths
+                    if v >= 5 && (d.abs() > 1 || k < 10 || (v == 5 && k > 20)) {
                         continue;
                     }
                     cases.push((pre, ((1i64 << k) + d) as u32, v));
